@@ -268,9 +268,27 @@ fn run_c17(line: &str) -> String {
         if r3 != r {
             return Some(format!("{}\tFAIL:and_props-split-differs({})", r, r3));
         }
+        if let Some(r4) = with_event(&mdl, &ps, |evt| matches_btree(&map, evt)) {
+            if r4 != r {
+                return Some(format!("{}\tFAIL:btreemap-props-differ({})", r, r4));
+            }
+        }
         Some(if r == r2 { format!("{}", r) } else { format!("{}\tFAIL:erased-path-differs({})", r, r2) })
     })()
     .unwrap_or_else(|| "bad-case".into())
+}
+
+/// evaluate `f` on the event with its properties as a `BTreeMap<Str, Value>` (looked up through `Borrow<str>`, so by
+/// `str`'s ordering); only when no key repeats (a map keeps one value per key)
+fn matches_btree<F: emit::Filter>(f: &F, evt: emit::Event<&[(&str, emit::Value)]>) -> Option<bool> {
+    let all: &[(&str, emit::Value)] = *evt.props();
+    let mut m: std::collections::BTreeMap<emit::Str, emit::Value> = Default::default();
+    for (k, v) in all {
+        if m.insert(emit::Str::new_ref(k), v.by_ref()).is_some() {
+            return None;
+        }
+    }
+    Some(f.matches(&evt.map_props(|_| &m)))
 }
 
 /// evaluate `f` on the event with its property slice re-expressed as `first.and_props(rest)`
@@ -383,8 +401,36 @@ fn run_parse(line: &str) -> String {
         let b = Level::try_from_str(&text).ok();
         // cast of a text value must agree with parsing its text (C15 clause)
         let c = emit::Value::from(text.as_str()).cast::<Level>();
+        // … and so must the cast of a value that only DISPLAYS as that text (captured with Display, borrowed and owned),
+        // and a pull of it
+        struct D<'a>(&'a str);
+        impl<'a> std::fmt::Display for D<'a> {
+            fn fmt(&self, f: &mut std::fmt::Formatter) -> std::fmt::Result {
+                f.write_str(self.0)
+            }
+        }
+        let d = D(&text);
+        let dv = emit::Value::from_display(&d);
+        let others = [
+            dv.by_ref().cast::<Level>(),
+            dv.to_owned().by_ref().cast::<Level>(),
+            {
+                use emit::Props;
+                [("lvl", dv.by_ref())].pull::<Level, _>("lvl")
+            },
+        ];
         let out = show_level(a);
-        Some(if a == b && a == c { out.to_string() } else { format!("{}\tFAIL:entry-points-differ({},{})", out, show_level(b), show_level(c)) })
+        Some(if a == b && a == c && others.iter().all(|o| *o == a) {
+            out.to_string()
+        } else {
+            format!(
+                "{}\tFAIL:entry-points-differ({},{},{})",
+                out,
+                show_level(b),
+                show_level(c),
+                others.iter().map(|o| show_level(*o)).collect::<Vec<_>>().join(",")
+            )
+        })
     })()
     .unwrap_or_else(|| "bad-case".into())
 }
@@ -396,7 +442,11 @@ const SEGS: [&str; 13] = ["a", "aa", "b", "ab", "a_b", "A", "é", "z9", "aaa", "
 
 fn gen_level_text(rng: &mut Rng) -> String {
     const WORDS: [&str; 6] = ["information", "debug", "dbg", "error", "warning", "wrn"];
-    const TAILS: [&str; 12] = ["", "", "", "1", "(4)", " ", "-x", "\u{7f}", "\u{1}", "é", "\u{a0}", "_"];
+    // (the last: trailing data that takes the text well past 64 bytes — a level with a long explanation attached)
+    const TAILS: [&str; 13] = [
+        "", "", "", "1", "(4)", " ", "-x", "\u{7f}", "\u{1}", "é", "\u{a0}", "_",
+        " (severity number 13; mapped from the upstream collector's numbering, see the operations handbook)",
+    ];
     const PADS: [&str; 8] = ["", "", "", " ", "\t", "\u{a0}", "\u{2003}", "\n "];
     match rng.below(10) {
         0 => {
@@ -429,7 +479,7 @@ fn gen_props(rng: &mut Rng) -> Sexp {
     let n = rng.usize(4);
     let mut items = Vec::new();
     for _ in 0..n {
-        let key = *rng.pick(&["lvl", "lvl", "lvl", "a", "LVL", "lv", ""]);
+        let key = *rng.pick(&["lvl", "lvl", "lvl", "a", "LVL", "lv", "", "op", "z", "lvl2"]);
         let v = match rng.below(8) {
             0 | 1 | 2 => Sexp::tagged("typed", vec![Sexp::atom(*rng.pick(&LEVELS))]),
             3 | 4 | 5 => Sexp::tagged("text", vec![Sexp::str(&gen_level_text(rng))]),
